@@ -15,7 +15,7 @@ RULE = ("the C15 configuration space (model tags x rated power x all subsets of 
 ASSUMPTIONS = ["the simulated inverter answers every read with exactly 2 x count payload bytes",
                "values decoded from a refused block's predecessor response would also show as foreign reads in C12/C15; this "
                "check decides only 'no reported value is fabricated from missing bytes'"]
-MUST = ["configs_run", "reads_observed", "block_running", "block_battery", "block_battery2", "block_meter_basic",
+MUST = ["poll_after_failed_device_info", "tcp_wrong_mbap_length", "configs_run", "reads_observed", "block_running", "block_battery", "block_battery2", "block_meter_basic",
         "block_meter_ext", "block_meter_ext2", "block_mppt", "block_dt_running", "block_dt_meter", "block_es_runtime"]
 EXHAUSTIVE = {"quick": False, "thorough": True}
 
@@ -24,15 +24,34 @@ BLOCK_OF = {(35100, 125): "block_running", (37000, 24): "block_battery", (39000,
             (35301, 61): "block_mppt", (30100, 73): "block_dt_running", (30195, 15): "block_dt_meter"}
 
 
-def check_config(cfg, part, rl, port=8899):
+def check_config(cfg, part, rl, port=8899, mbap=None, rerun_info=False):
     g = env.goodwe()
     fam = cfg["family"]
-    counted = {"n": 0}
-    res = configs.run_config(cfg, ncalls=3, port=port, readlog=rl)
+
+    async def failing_device_info_then_poll(inv, sim, loop, res_):
+        """history: a repeated read_device_info() gets no answer (reconnect), the next poll must still decode only what it fetched"""
+        sim.silent = True
+        try:
+            await inv.read_device_info()
+        except g.InverterError:
+            pass
+        sim.silent = False
+        rl.start()
+        try:
+            await inv.read_runtime_data()
+        except g.InverterError:
+            pass
+        for entry in rl.stop():
+            if entry[3] < entry[2]:
+                res_["short_reads"].append((9,) + entry)
+        part.count("poll_after_failed_device_info")
+
+    res = configs.run_config(cfg, ncalls=3, port=port, readlog=rl, mbap_len_bug=mbap,
+                             extra=failing_device_info_then_poll if rerun_info else None)
     run = res["run"]
     part.evaluations += 1
     part.count("configs_run")
-    case = {"config": cfg, "port": port}
+    case = {"config": cfg, "port": port, "mbap": mbap}
     tag = f"{fam} {cfg['tag']} rated={cfg['rated']} refused={cfg['refused']} battery={cfg['battery']}"
     if run.stop or run.error is not None:
         part.violate(f"C14/{fam}/setup-failed", f"{tag}: {run.stop or repr(run.error)}", case)
@@ -107,14 +126,17 @@ def run_shard(spec):
     for i, cfg in enumerate(allc):
         if i % spec["shards"] != spec["shard"]:
             continue
-        check_config(cfg, part, rl, 8899)
+        check_config(cfg, part, rl, 8899, rerun_info=(i % 5 == 0))
         if cfg["family"] != "ES" and (tier != "quick" or i % 7 == 0):
-            check_config(cfg, part, rl, 502)
+            # Modbus/TCP; every other run against firmware that sends a wrong MBAP length field (a known GoodWe quirk)
+            check_config(cfg, part, rl, 502, mbap=(None, "request", "bytecount")[i % 3])
+            if i % 3:
+                part.count("tcp_wrong_mbap_length")
     return part
 
 
 def replay(case):
     g = env.goodwe()
     part = Part()
-    check_config(case["config"], part, CountingReadLog(g), case.get("port", 8899))
+    check_config(case["config"], part, CountingReadLog(g), case.get("port", 8899), mbap=case.get("mbap"), rerun_info=True)
     return [{"key": v["key"], "msg": v["msg"]} for v in part.violations]
